@@ -179,6 +179,8 @@ func doLen(c *core.Ctx, cli bool, thr float64, rr, rt bool, n *core.N) {
 		return
 	}
 	t := mustBuild(n)
+	pending(c, "C07.len", core.Rat(thr), b2s(rr), b2s(rt), n.Dump(), "exit:killed", "")
+	defer done()
 	if p, msg := core.Safe(func() { t.CollapseShortBranches(thr, rr, rt) }); p {
 		c.Emit("C07.len", core.Rat(thr), b2s(rr), b2s(rt), n.Dump(), "panic:"+core.Escape(msg), "")
 		return
@@ -196,6 +198,8 @@ func doSup(c *core.Ctx, cli bool, thr float64, rr bool, n *core.N) {
 		return
 	}
 	t := mustBuild(n)
+	pending(c, "C07.sup", core.Rat(thr), b2s(rr), n.Dump(), "exit:killed", "")
+	defer done()
 	if p, msg := core.Safe(func() { t.CollapseLowSupport(thr, rr) }); p {
 		c.Emit("C07.sup", core.Rat(thr), b2s(rr), n.Dump(), "panic:"+core.Escape(msg), "")
 		return
@@ -214,6 +218,8 @@ func doDepth(c *core.Ctx, cli bool, mn, mx int, rr, rt bool, n *core.N) {
 	}
 	t := mustBuild(n)
 	var err error
+	pending(c, "C07.depth", strconv.Itoa(mn), strconv.Itoa(mx), b2s(rr), b2s(rt), n.Dump(), "exit:killed", "")
+	defer done()
 	if p, msg := core.Safe(func() {
 		// as cmd/collapsedepth.go: the subtree sizes come from ReinitIndexes
 		if err = t.ReinitIndexes(); err != nil {
@@ -237,6 +243,8 @@ func doDepth(c *core.Ctx, cli bool, mn, mx int, rr, rt bool, n *core.N) {
 func doDepthRaw(c *core.Ctx, mn, mx int, rr, rt bool, n *core.N) {
 	t := mustBuild(n)
 	var err error
+	pending(c, "C07.depthraw", strconv.Itoa(mn), strconv.Itoa(mx), b2s(rr), b2s(rt), n.Dump(), "exit:killed", "")
+	defer done()
 	if p, msg := core.Safe(func() { err = t.CollapseTopoDepth(mn, mx, rr, rt) }); p {
 		c.Emit("C07.depthraw", strconv.Itoa(mn), strconv.Itoa(mx), b2s(rr), b2s(rt), n.Dump(), "panic:"+core.Escape(msg), "")
 		return
@@ -314,6 +322,8 @@ func doDepthStale(c *core.Ctx, mn, mx int, rr, rt bool, scenario, arg int, n *co
 		fmt.Fprintf(&stored, "%d:%d:%d,", e.Id(), e.NumTipsLeft(), e.NumTipsRight())
 	}
 	var err error
+	pending(c, "C07.depthstale", append(pre, cur.Dump(), stored.String(), "exit:killed", "")...)
+	defer done()
 	if p, msg := core.Safe(func() { err = t.CollapseTopoDepth(mn, mx, rr, rt) }); p {
 		c.Emit("C07.depthstale", append(pre, cur.Dump(), stored.String(), "panic:"+core.Escape(msg), "")...)
 		return
@@ -337,6 +347,8 @@ func doRemove(c *core.Ctx, rr, rt bool, ids []int, n *core.N) {
 			es = append(es, e)
 		}
 	}
+	pending(c, "C07.remove", b2s(rr), b2s(rt), core.IntList(ids), n.Dump(), "exit:killed", "")
+	defer done()
 	if p, msg := core.Safe(func() { t.RemoveEdges(rr, rt, es...) }); p {
 		c.Emit("C07.remove", b2s(rr), b2s(rt), core.IntList(ids), n.Dump(), "panic:"+core.Escape(msg), "")
 		return
@@ -374,6 +386,8 @@ func doResolve(c *core.Ctx, cli bool, seed int64, n *core.N) {
 		before = n
 		t := mustBuild(n)
 		rand.Seed(seed)
+		pending(c, "C07.resolve", strconv.FormatInt(seed, 10), n.Dump(), "", "exit:killed", "", "0")
+		defer done()
 		if p, msg := core.Safe(func() { t.Resolve() }); p {
 			c.Emit("C07.resolve", strconv.FormatInt(seed, 10), n.Dump(), "", "panic:"+core.Escape(msg), "", "0")
 			return
@@ -669,6 +683,9 @@ func resolveCase(c *core.Ctx, cli bool) {
 
 // Run generates the cases of C07.
 func Run(c *core.Ctx) {
+	if runInChild(c) {
+		return
+	}
 	if c.Arg != "" {
 		lines := core.ReadRequests(c.Arg)
 		if os.Getenv("VERIF_SHRINK") != "" {
@@ -699,7 +716,7 @@ func Run(c *core.Ctx) {
 	}
 	if c.Gotree != "" {
 		m := c.Scale(40, 800)
-		for i := 0; i < c.Scale(1, 12); i++ {
+		for i := 0; i < c.Scale(2, 12); i++ {
 			cmdCases(c) // every flag combination of the four commands
 			for _, kind := range []string{"l-inf", "l-nan", "l-ninf", "s-nan", "s-inf"} {
 				doNonFinite(c, kind, genTree(c, true))
